@@ -181,7 +181,7 @@ Expect ==
     [] op \in {"Reload", "Immutable"} ->
          (* the reloaded container knows what the document says: Forget *)
          LET a == pool[Ev.a] IN [X(Ev.t, FALSE, a.c, Forget(a.d, a.c), FALSE, TRUE, "det") EXCEPT !.dt = a.dt]
-    [] op \in {"Eq", "Read", "Doc", "CatView", "Grid2D", "Acc"} -> X(0, FALSE, Absent.c, DummyD, FALSE, FALSE, "pure")
+    [] op \in {"Eq", "EqNear", "Read", "Doc", "CatView", "Grid2D", "Acc"} -> X(0, FALSE, Absent.c, DummyD, FALSE, FALSE, "pure")
     [] op = "View" ->
          [X(0, FALSE, Absent.c, DummyD, FALSE, FALSE, "pure")
             EXCEPT !.may = ~ViewDefined(pool[Ev.a].c, Ev.hasLo, Ev.qlo, Ev.hasHi, Ev.qhi)]
@@ -269,6 +269,9 @@ Clauses(E) ==
                                             that chunks add up to the whole) *)
                                          Ev.df_unchanged /\ Ev.nfeat /\ Ev.kept
                       [] Ev.op = "Eq" -> EqFlags(E)
+                      (* a copy with one numeric field moved by one ulp: equal under tolerance 1e-12, unequal under
+                         tolerance 0, equal again under 1e-12 (positive tolerances only widen; no verdict is remembered) *)
+                      [] Ev.op = "EqNear" -> ~Ev.res.nudged \/ (Ev.res.t1 /\ ~Ev.res.z /\ Ev.res.zne /\ Ev.res.t2)
                       [] Ev.op = "View" -> ViewOK(pool[Ev.a].c, Ev.hasLo, Ev.qlo, Ev.hasHi, Ev.qhi, Ev.xs, Ev.res)
                       [] Ev.op = "CatView" -> CatViewOK(pool[Ev.a].c, Ev.res)
                       [] Ev.op = "Grid2D" -> Grid2DOK(pool[Ev.a].c, Ev.res)
